@@ -419,3 +419,65 @@ PROPS['C08'] = {'suites': [{'name': 'storage', 'quick': 5000, 'thorough': 100000
  'assumptions': ['capacity > 0 (capacity 0 is the recorded defect)',
                  'one creation in flight per controller (every kira caller holds &mut on the controller)',
                  'generation counters do not wrap']}
+
+PROPS['C09'] = {'suites': [{'name': 'stream', 'quick': 1500, 'thorough': 30000}],
+ 'technique': 'Lean 4 theorems (induction over histories; a bisimulation relation proved invariant under every step) about the hand-written '
+              'models of sound/streaming/{sound.rs, sound/decode_scheduler.rs, data.rs, handle.rs} and of the static sound, for every decoder '
+              'meeting the Decoder contract of C18; the same definitions run as the Float twin and are diffed bit-for-bit against a real '
+              'StaticSound and a real StreamingSound (verif_hooks::streaming::split over a scripted in-memory decoder) driven side by side',
+ 'level_text': 'Lean theorems over the reals, for ALL audio contents, lengths, slices, start positions, valid loop regions, settings, packet sizes '
+               'and seek granularities (any decoder meeting the contract): the frame ring of a streaming sound always holds the entries a..m-1 of '
+               "the transport's walk (the previous frame, then the frames under the play head of the next steps, in order, index-stamped) for every "
+               'history of commands, callbacks and decoder iterations at any pace (C09_ring_is_future); the relation "static resampler window = first '
+               'four ring entries, same fraction, same parameters, same SoundCore" holds between the freshly built sounds and is preserved by every '
+               'output frame, process call, on_start_processing, handle command and decoder iteration whenever the playback rate is not negative '
+               'and the decoder has buffered the window plus the frames stepped over or reached the end, hence equal output frames, equal handle '
+               'state and finished() after every prefix of every history without seeks (C09_bisimulation_frame/_process/C09_bisimulation: the static '
+               'sound drains 4 None pushes while the streaming sound pops its last 4 entries, both become Stopped in the same frame); reported '
+               'positions differ by the fractional position < one frame while two entries are buffered (C09_positions_within_one_frame); two '
+               'contract-meeting decoders push the same timestamped frame whatever their packets and seeks (C09_packetisation_independent). The twin '
+               'agrees bit-for-bit with kira on every output frame, handle.state(), handle.position(), finished() of BOTH sounds; the side-by-side '
+               'oracle compares the two real sounds directly',
+ 'level_note': "'the decoder keeps ahead' and 'rates >= 0' are premises (Good/ProcOk/FrameOk, stated on the streaming run alone); real thread timing is "
+               "C10's subject; seek / set_loop_region commands are outside the bisimulation (a streaming sound applies them in its decoder thread, "
+               'after up to 16384 buffered frames) - the twin still mirrors them bit-exactly for both sounds; theorems are over ideal real arithmetic '
+               '(rounding only in the twin); negative rates differ by design (static plays backwards, streaming clamps to 0): the generator produces '
+               'them and the twin matches both, the equality oracle skips them; reverse playback does not exist for streaming sounds',
+ 'assumptions': ['the decoder meets the Decoder contract of Model/Decoder.lean (C18; SymphoniaDecoder does for WAV: C18 theorem; not for Vorbis after a seek: '
+                 "C18's recorded finding)",
+                 'slice inside the data, loop region valid (ls < le <= n), start position inside the decoder\'s audio - outside them both sounds hang or '
+                 'panic alike (C04 / C01 findings)',
+                 'no seek_to / seek_by / set_loop_region in the compared histories; playback rate values >= +0.0',
+                 'the decoder is ahead at every rendered frame: ring holds 4 + frames stepped over, or end reached (hand-stepped HScheduler::run in the suite)']}
+
+PROPS['C10'] = {'suites': [{'name': 'decthread', 'quick': 500, 'thorough': 5000}, {'name': 'stream', 'quick': 300, 'thorough': 3000}],
+ 'technique': 'Lean 4 theorems about a labelled transition system (decoder-thread steps || audio callbacks || handle events || the sound being '
+              'abandoned) whose steps are the functions of the streaming-sound model the twin runs: ranking argument for thread exit, inductive '
+              'invariants over all reachable states, concrete witnesses for the two clauses that are false; the twin is diffed against the REAL '
+              "decoder thread held at kira's yield points decoder.loop.top / decoder.loop.before_error_push, and free-running real threads are "
+              'watched through /proc/self/task, decoder Drop and call counters',
+ 'level_text': 'Lean theorems over all decoders (no contract: any call may fail), all schedules: from ANY state in which the sound is Stopped the decoder '
+               'thread is gone after at most 3 of its own atomic steps (rank of its program counter; 2 loop iterations), whatever is interleaved, and the '
+               'sound stays Stopped (C10_thread_ends_partial/_rank); in every reachable state reached_end implies the thread has ended '
+               '(C10_thread_ends_at_end_of_data); every iteration whose run does not fail pushes exactly one frame, sleeps or ends '
+               '(C10_no_busy_spin_partial); an Err from run at any call position leads in two steps to the error pushed (if the slot is free) and the '
+               'flag set (C10_error_sets_flag), the next process marks Stopped, writes exact zeros, finished() (C10_error_stops_sound), the next '
+               'on_start_processing of the track unloads it and a Stopped sound only ever writes zeros (C10_stopped_sound_is_unloaded_and_silent), and '
+               'until the handle pops the 1-slot ring holds the FIRST error, which pop_error returns (C10_first_error_can_be_popped, invariant over '
+               'reachable states); at any pace the ring is a window a..m-1 of the decoded sequence with a, m only growing (C10_ring_window_any_pace) and '
+               'every rendered frame is the shaded Hermite interpolation of four consecutive entries or silence, entry a+1 itself at an integer '
+               'position (C10_slow_decoder_gaps_only; C10_starving_process_is_silent). The twin agrees with the real thread step by step '
+               '(exhaustively for streams <= 4 frames x failing call k x stop/drop/seek at every decoder position in the thorough tier)',
+ 'level_note': 'PARTIAL, three clauses are false of the code and proved false: C10_frames_lost_while_starving (entries delivered one at a time while process '
+               'is mid-buffer with the ring dry are consumed unheard: more than one frame is lost; found by the real-thread slow-decoder oracle), '
+               'C10_thread_never_ends_when_abandoned (sound refused by a full track / '
+               'dropped with its track or manager: for every schedule the thread stays at its loop top) and C10_busy_spin_after_error (after an error '
+               'every iteration fails again at once: no push, no sleep, no end, until some process call marks Stopped - never, while the track is '
+               'paused); these two are reproduced on the real code on every run, the first one in about 1 run in 5 (KNOWN-FINDING). A sound waiting for its start time IS stopped by an error '
+               '(the flag test is the first statement of process): the design note claiming otherwise was wrong. Wall-clock bounds, OS scheduling '
+               'and sleep granularity are observed by the real-thread oracles only; SeqCst interleavings (weak memory unmodelled)',
+ 'assumptions': ['sequentially consistent interleaving of the labelled steps (all kira atomics are SeqCst; rtrb is a linearizable SPSC queue)',
+                 'the state after a FAILED decoder call keeps the pre-call decoder-facing fields (the Decoder trait exposes no post-error state); the '
+                 "suite's scripted decoders fail stickily (k-th call and all later ones), for which this is exact",
+                 'C10_ring_window_any_pace / gaps-only assume a decoder meeting the contract and no seek / loop commands (seeks deliberately discard the order)',
+                 'real-thread oracles use generous bounds (thread gone within 1.5 s; leak declared after 0.4 s)']}
